@@ -17,8 +17,8 @@ type HookSpec struct {
 	Kind int // 0 add fields, 1 discard, 2 read GetCtx, 3 noop, 4 LevelHook wrapper around an add hook, 5 HookFunc add, 6 Context.Timestamp() hook,
 	// 7 add fields after logging a complete event through ANOTHER logger (re-entrancy while the outer event is open),
 	// 8 LevelHook with only the Info and Error slots set (the add hook runs for those levels only), 9 NewLevelHook() (all slots empty)
-	Ops  []*Op
-	Out  []KVI
+	Ops []*Op
+	Out []KVI
 }
 
 var hookKindNames = [...]string{"add", "discard", "getctx", "noop", "levelhook", "hookfunc", "timestamp", "add-after-nested-logging", "levelhook(info,error)", "levelhook(empty)"}
@@ -226,6 +226,9 @@ func (g *G) GenProgram(maxChain, maxEvents, maxOps int) *Program {
 		case choice == 11:
 			st.Kind = "Level"
 			st.Level = zerolog.Level(r.Intn(6) - 2)
+			if r.Chance(1, 8) {
+				st.Level = []zerolog.Level{zerolog.Disabled, zerolog.PanicLevel, zerolog.NoLevel}[r.Intn(3)] // a later Level step may re-enable
+			}
 			level = st.Level
 		case choice == 12:
 			st.Kind = "Output"
